@@ -227,8 +227,11 @@ def trace_origin(name: str, source: str, *, __all__: bool = False) -> _TraceResu
     # and end up putting `from pathlib import os` in generated code.
     if __all__:
         all_template = ast.Assign(
-            targets=[ast.Name(id="__all__")], value=ast.List(elts={ast.Constant(value=str)})
-        )
+            targets=[ast.Name(id="__all__")],
+            value=(
+                ast.List(elts={ast.Constant(value=str)}),
+                ast.Tuple(elts={ast.Constant(value=str)}),
+        ),)
         all_extend_template = ast.Call(
             func=ast.Attribute(value=ast.Name(id="__all__"), attr="extend"),
             args=[(
@@ -400,8 +403,11 @@ def fix_reimported_names(source: str) -> str:
     root = core.parse(source)
 
     all_template = ast.Assign(
-        targets=[ast.Name(id="__all__")], value=ast.List(elts={ast.Constant(value=str)})
-    )
+        targets=[ast.Name(id="__all__")],
+        value=(
+            ast.List(elts={ast.Constant(value=str)}),
+            ast.Tuple(elts={ast.Constant(value=str)}),
+    ),)
     module_from_imports = collections.defaultdict(set)
 
     import_insert_lineno = min(
